@@ -398,7 +398,7 @@ type GenOpts struct {
 var friendly = []int{5000, 20000, 40000, 2500, 50000, 2000, 12500, 8000, 100000, 1000, 25000, 4000, 10000}
 
 var DefaultAccounts = []string{
-	"Assets:Bank:Checking", "Assets:Bank:Savings", "Assets:Portfolio", "Liabilities:Card", "Liabilities:Loan:Car",
+	"Assets:Bank:Checking", "Assets:Bank:Savings", "Assets:Bank", "Assets:Portfolio", "Liabilities:Card", "Liabilities:Loan:Car", "Expenses:Food",
 	"Equity:Equity", "Income:Salary", "Income:Gifts:Family", "Expenses:Rent", "Expenses:Food:Groceries", "Expenses:Food:Dining",
 }
 
@@ -457,8 +457,35 @@ func Random(rng *rand.Rand, o GenOpts, base int) *Journal {
 		}
 	}
 	nt := 2 + rng.Intn(o.MaxDirs)
+	// transactions in chronological order so that the generator can steer positions
+	// (flatten a position to exactly zero, re-open it later); steering only, no oracle
+	zs := make([]int, nt)
+	for k := range zs {
+		zs[k] = base + rng.Intn(span)
+	}
+	sort.Ints(zs)
+	pos := map[[2]string]int{}
+	isAL := func(a string) bool { return strings.HasPrefix(a, "Assets") || strings.HasPrefix(a, "Liabilities") }
 	for k := 0; k < nt; k++ {
-		d := Dir{K: "trx", Z: base + rng.Intn(span), Desc: fmt.Sprintf("t%d", k)}
+		d := Dir{K: "trx", Z: zs[k], Desc: fmt.Sprintf("t%d", k)}
+		if rng.Intn(4) == 0 && len(pos) > 0 {
+			// flatten one existing position exactly
+			var keys [][2]string
+			for kk, v := range pos {
+				if v != 0 {
+					keys = append(keys, kk)
+				}
+			}
+			sort.Slice(keys, func(a, b int) bool { return keys[a][0]+keys[a][1] < keys[b][0]+keys[b][1] })
+			if len(keys) > 0 {
+				kk := keys[rng.Intn(len(keys))]
+				d.Bk = append(d.Bk, Booking{Cr: kk[0], Dr: "Equity:Equity", C: kk[1], Q: pos[kk]})
+				d.Desc = fmt.Sprintf("flatten%d", k)
+				pos[kk] = 0
+				j.Dirs = append(j.Dirs, d)
+				continue
+			}
+		}
 		for b := 0; b < 1+rng.Intn(3)/2; b++ {
 			cr := used[rng.Intn(len(used))]
 			dr := used[rng.Intn(len(used))]
@@ -475,7 +502,14 @@ func Random(rng *rand.Rand, o GenOpts, base int) *Journal {
 			if rng.Intn(15) == 0 {
 				q = 0
 			}
-			d.Bk = append(d.Bk, Booking{Cr: cr, Dr: dr, C: comms[rng.Intn(len(comms))], Q: q})
+			c := comms[rng.Intn(len(comms))]
+			d.Bk = append(d.Bk, Booking{Cr: cr, Dr: dr, C: c, Q: q})
+			if isAL(cr) {
+				pos[[2]string{cr, c}] -= q
+			}
+			if isAL(dr) {
+				pos[[2]string{dr, c}] += q
+			}
 		}
 		if o.Accruals && rng.Intn(5) == 0 {
 			s := base + rng.Intn(span)
